@@ -309,53 +309,39 @@ Proof.
   unfold shard_cursor at 2. rewrite (no_field_no_points _ _ _ E). cbn. exact IH.
 Qed.
 
-(** The shared cursor returns exactly the row's own points passing the row's own value
-    condition when the row has a condition of its own, or no earlier row of the same field
-    type armed the filter, or at most one shard is read. *)
-Definition cursor_ok (st : fstate) (ty : N) (cond : option vexp) (shs : list shard) : Prop :=
-  cond <> None \/ st_get st ty = None \/ length shs <= 1.
+Lemma st_get_clear st ty : st_get (st_clear st ty) ty = None.
+Proof.
+  unfold st_clear. induction st as [|[t e] st IH]; cbn; auto.
+  destruct (N.eqb t ty) eqn:E; cbn; auto. rewrite E. exact IH.
+Qed.
 
+(** The shared cursor returns exactly the row's own points passing the row's own value
+    condition, whatever state the earlier rows left behind: [reset] either re-arms the filter
+    with the row's condition or clears it. *)
 Lemma multi_cursor_v_ok st ty cond shs lo hi s f :
-  cursor_ok st ty cond shs ->
   fst (multi_cursor_v st ty cond shs lo hi s f) = vfilter cond (multi_cursor shs lo hi s f).
 Proof.
-  intro OK. rewrite <- multi_cursor_skip. unfold multi_cursor_v.
-  assert (L : length (skip_nil shs s f) <= length shs).
-  { clear. induction shs as [|sh shs IH]; cbn; auto. destruct (has_field sh s f); cbn; lia. }
+  rewrite <- multi_cursor_skip. unfold multi_cursor_v.
   destruct (skip_nil shs s f) as [|sh rest]; cbn [fst].
   { destruct cond; reflexivity. }
   unfold multi_cursor. cbn [flat_map]. rewrite vfilter_app, vfilter_flat_map. f_equal.
-  destruct OK as [OK|[OK|OK]].
-  - destruct cond as [e|]; [|congruence]. cbn [st_get st_set]. rewrite N.eqb_refl. reflexivity.
-  - destruct cond as [e|]; cbn [st_get st_set]; [rewrite N.eqb_refl|rewrite OK]; reflexivity.
-  - destruct rest; [reflexivity|]. cbn in L. lia.
+  destruct cond as [e|].
+  - cbn [st_get st_set]. rewrite N.eqb_refl. reflexivity.
+  - rewrite st_get_clear. reflexivity.
 Qed.
 
-(** rows of a request that all carry, or all lack, a value condition: every row is exact *)
+(** every row of a request is exact *)
 Definition exact_row (sel : list shard) (lo hi : Z) (r : srow) : row :=
   (srow_tags r, vfilter (r_cond r) (multi_cursor sel lo hi (r_s r) (r_f r))).
 
-Lemma read_rows_uniform ty sel lo hi rows : forall st,
-  Forall (fun r => r_cond r <> None) rows \/
-  (Forall (fun r => r_cond r = None) rows /\ forall t, st_get st t = None) \/
-  length sel <= 1 ->
+Lemma read_rows_exact ty sel lo hi rows : forall st,
   fst (read_rows ty sel lo hi st rows) = map (exact_row sel lo hi) rows.
 Proof.
-  induction rows as [|r rows IH]; intros st H; cbn; auto.
+  induction rows as [|r rows IH]; intros st; cbn; auto.
   unfold read_one.
   pose proof (multi_cursor_v_ok st (ty_of ty (r_f r)) (r_cond r) sel lo hi (r_s r) (r_f r)) as E.
   destruct (multi_cursor_v st (ty_of ty (r_f r)) (r_cond r) sel lo hi (r_s r) (r_f r))
-    as [pts st1] eqn:M. cbn [fst] in E.
+    as [pts st1]. cbn [fst] in E.
   specialize (IH st1). destruct (read_rows ty sel lo hi st1 rows) as [xs st2]. cbn [fst] in *.
-  unfold exact_row at 1. f_equal.
-  - f_equal. apply E. destruct H as [H|[[H1 H2]|H]].
-    + left. inversion H; auto.
-    + right; left. apply H2.
-    + right; right. exact H.
-  - apply IH. destruct H as [H|[[H1 H2]|H]].
-    + left. inversion H; auto.
-    + right; left. inversion H1 as [|? ? C R]; subst. split; auto.
-      unfold multi_cursor_v in M. rewrite C in M.
-      destruct (skip_nil sel (r_s r) (r_f r)); inversion M; subst; auto.
-    + right; right. exact H.
+  unfold exact_row at 1. rewrite E, IH. reflexivity.
 Qed.
